@@ -211,6 +211,18 @@ class G:
             body = [{"k": "inc", "l": {"k": "id", "n": w}}] + self.block(env + [(w, "int")], d - 1, True, infun)
             return {"k": "block", "b": [{"k": "var", "n": w, "e": {"k": "int", "v": 0}},
                                         {"k": "while", "c": {"k": "bin", "op": "<", "l": {"k": "id", "n": w}, "r": {"k": "int", "v": r.randint(1, 3)}}, "b": body}]}
+        if c < 0.705:
+            ms = [n for n, t in env if t == "map"]
+            if ms:
+                # for (p : map): the pairs in key order; p.second is the element itself
+                m = r.choice(ms)
+                pv = self.fresh("p")
+                body = [{"k": "out", "e": {"k": "attr", "e": {"k": "id", "n": pv}, "n": "first"}}, {"k": "out", "e": {"k": "attr", "e": {"k": "id", "n": pv}, "n": "second"}}]
+                if r.random() < 0.5:
+                    body.append({"k": "asg", "l": {"k": "attr", "e": {"k": "id", "n": pv}, "n": "second"}, "e": self.int_expr([(n, t) for n, t in env if n != m], 1)})
+                benv = [(n, t) for n, t in env if n != m]
+                body += self.block(benv, d - 1, True, infun, 1)
+                return {"k": "rfor", "n": pv, "e": {"k": "id", "n": m}, "b": body}
         if c < 0.74:
             vs = [n for n, t in env if t == "vec"]
             e = self.fresh("e")
